@@ -1396,3 +1396,1125 @@ Proof.
   - simpl. eexists. split; [apply lookup_update_eq|reflexivity].
 Qed.
 
+Ltac break_inner_in H :=
+  match type of H with
+  | context [match ?x with _ => _ end] =>
+      lazymatch x with
+      | context [match _ with _ => _ end] => fail
+      | _ => let E := fresh "E" in destruct x eqn:E
+      end
+  end.
+
+(* ======================================================================================== *)
+(* Second part: state-level invariants (trace-level pause theorem, resumes only paused)        *)
+(* ======================================================================================== *)
+
+(* ---- explicit shape of the scheduler-level transitions ------------------------------------- *)
+Lemma suggest_shape cfg st n br b got st' o :
+  suggest cfg st n br b got = Ok (st', o) ->
+  exists rs rs1 p, nth_error (st_sys st) (fst (sys_of cfg br)) = Some rs /\
+    rs_on_task_schedule cfg rs b = Ok (rs1, p) /\
+    match p with
+    | Some (j, t, rf, ms) =>
+        (rf < ms)%Z /\ exists ti, lookup t (st_active st) = Some ti /\ ti_dec ti <> CONTINUE /\
+        st' = mkS (set_nth (fst (sys_of cfg br)) (set_running rs1 (update t (ms, Some rf) (rs_running rs1))) (st_sys st))
+                  (update t br (st_task st)) (update t (mkTI CONTINUE (ti_lur ti)) (st_active st)) (st_off st) /\
+        o = OResume t (if c_mra cfg then Some ms else None) (fst (sys_of cfg br)) j rf ms
+    | None =>
+        (got = false /\ o = ONoSuggestion /\
+         st' = mkS (set_nth (fst (sys_of cfg br)) rs1 (st_sys st)) (st_task st) (st_active st) (st_off st)) \/
+        (got = true /\ lookup n (st_active st) = None /\
+         o = OStart n (if c_mra cfg then Some (first_milestone cfg rs1 (snd (sys_of cfg br))) else None) /\
+         st' = mkS (set_nth (fst (sys_of cfg br)) (rs_on_task_add_new cfg rs1 n (snd (sys_of cfg br))) (st_sys st))
+                   (update n br (st_task st)) (update n (mkTI CONTINUE None) (st_active st)) (st_off st))
+    end.
+Proof.
+  unfold suggest. intro H. destruct (sys_of cfg br) as [sid skip]. simpl.
+  destruct (nth_error (st_sys st) sid) as [rs|] eqn:En; [|discriminate].
+  destruct (rs_on_task_schedule cfg rs b) as [[rs1 [[[[j t] rf] ms]|]]|] eqn:Es; [| |discriminate].
+  - exists rs, rs1, (Some (j, t, rf, ms)). split; [reflexivity|]. split; [exact Es|].
+    unfold rs_on_task_add_resumed in H. destruct (rf <? ms)%Z eqn:Elt; [|discriminate].
+    destruct (lookup t (st_active st)) as [ti|] eqn:El; [|discriminate].
+    destruct (decision_eqb (ti_dec ti) CONTINUE) eqn:Ed; [discriminate|]. inv H.
+    split; [lia|]. exists ti. split; [reflexivity|]. split; [|split; reflexivity].
+    intro Hc. rewrite Hc in Ed. discriminate.
+  - exists rs, rs1, None. split; [reflexivity|]. split; [exact Es|].
+    destruct got; simpl in H.
+    + destruct (lookup n (st_active st)) eqn:El; [discriminate|]. inv H. right. repeat split; reflexivity.
+    + inv H. left. repeat split; reflexivity.
+Qed.
+
+Definition report_outcome (cfg : config) (rs : rsys) (t r : Z) (m total eps : Q) : result (rsys * report_info) :=
+  if (r <? c_max_t cfg)%Z then rs_on_task_report cfg rs t r m total eps else Ok (rs, mkInfo false true false).
+Definition total_cost (cfg : config) (st : state) (t : Z) (c : Q) : Q :=
+  if c_cost cfg then c + match lookup t (st_off st) with Some o => o | None => 0 end else c.
+
+Lemma on_trial_result_shape cfg st t r m c eps st' d :
+  on_trial_result cfg st t r m c eps = Ok (st', d) ->
+  (1 <= r)%Z /\ exists ti, lookup t (st_active st) = Some ti /\
+  ((ti_dec ti <> CONTINUE /\ st' = st /\ d = ti_dec ti) \/
+   (ti_dec ti = CONTINUE /\ exists br rs rs' info off' lur',
+      lookup t (st_task st) = Some br /\ nth_error (st_sys st) (fst (sys_of cfg br)) = Some rs /\
+      report_outcome cfg rs t r m (total_cost cfg st t c) eps = Ok (rs', info) /\
+      let sys' := set_nth (fst (sys_of cfg br)) rs' (st_sys st) in
+      let st1 := mkS sys' (st_task st) (update t (mkTI CONTINUE lur') (st_active st)) off' in
+      ((ri_ignore info = true /\ st' = mkS sys' (st_task st) (st_active st) off' /\ d = CONTINUE) \/
+       (ri_ignore info = false /\ ri_continues info = true /\ st' = st1 /\ d = CONTINUE) \/
+       (ri_ignore info = false /\ ri_continues info = false /\ st' = cleanup cfg st1 t d /\
+        d = if (c_max_t cfg <=? r)%Z then STOP else PAUSE)))).
+Proof.
+  unfold on_trial_result. intro H.
+  destruct (r <? 1)%Z eqn:E1; [discriminate|]. split; [lia|].
+  destruct (lookup t (st_active st)) as [ti|]; [|discriminate]. exists ti. split; [reflexivity|].
+  destruct (decision_eqb (ti_dec ti) CONTINUE) eqn:Ed; simpl in H.
+  2: { inv H. left. split; [|split; reflexivity]. intro Hc. rewrite Hc in Ed. discriminate. }
+  right. split; [destruct (ti_dec ti); try discriminate; reflexivity|].
+  destruct (lookup t (st_task st)) as [br|] eqn:Etask; [|discriminate].
+  destruct (nth_error (st_sys st) (fst (sys_of cfg br))) as [rs|] eqn:Esys; [|discriminate].
+  fold (total_cost cfg st t c) in H. fold (report_outcome cfg rs t r m (total_cost cfg st t c) eps) in H.
+  destruct (report_outcome cfg rs t r m (total_cost cfg st t c) eps) as [[rs' info]|] eqn:Eout; [|discriminate].
+  match type of H with context [match ?X with Ok off' => _ | Err e => Err e end] =>
+    destruct X as [off'|]; [|discriminate] end.
+  destruct (ri_ignore info) eqn:Ei.
+  - inv H. exists br, rs, rs', info, off', None. split; [reflexivity|]. split; [exact Esys|]. split; [exact Eout|].
+    left. repeat (split; [first [assumption|reflexivity]|]); first [assumption|reflexivity].
+  - match type of H with context [match ?X with Ok lur' => _ | Err e => Err e end] =>
+      destruct X as [lur'|]; [|discriminate] end.
+    exists br, rs, rs', info, off', lur'. split; [reflexivity|]. split; [exact Esys|]. split; [exact Eout|].
+    destruct (ri_continues info) eqn:Ec.
+    + inv H. right. left. repeat (split; [first [assumption|reflexivity]|]); first [assumption|reflexivity].
+    + inv H. right. right. repeat (split; [first [assumption|reflexivity]|]); first [assumption|reflexivity].
+Qed.
+
+(* _cleanup_trial, componentwise *)
+Lemma cleanup_active cfg st t d t' :
+  lookup t' (st_active (cleanup cfg st t d)) =
+  if Z.eqb t' t then match lookup t (st_active st) with Some ti => Some (mkTI d (ti_lur ti)) | None => None end
+  else lookup t' (st_active st).
+Proof.
+  unfold cleanup. destruct (lookup t (st_task st)); simpl;
+    (destruct (Z.eqb t' t) eqn:E; [assert (t' = t) by lia; subst t'|assert (t' <> t) by lia]);
+    destruct (lookup t (st_active st)) eqn:El; simpl; rewrite ?lookup_update_eq, ?El; auto;
+    rewrite lookup_update_neq by assumption; reflexivity.
+Qed.
+
+Lemma cleanup_task cfg st t d t' :
+  lookup t' (st_task (cleanup cfg st t d)) = if Z.eqb t' t then None else lookup t' (st_task st).
+Proof.
+  unfold cleanup. destruct (lookup t (st_task st)) eqn:El; simpl;
+    (destruct (Z.eqb t' t) eqn:E; [assert (t' = t) by lia; subst t'|assert (t' <> t) by lia]); auto.
+  - apply lookup_remove_eq.
+  - apply lookup_remove_neq. assumption.
+Qed.
+
+Lemma cleanup_off cfg st t d : st_off (cleanup cfg st t d) = st_off st.
+Proof. unfold cleanup. destruct (lookup t (st_task st)); reflexivity. Qed.
+
+Lemma cleanup_sys cfg st t d :
+  ((lookup t (st_task st) = None \/
+    exists br, lookup t (st_task st) = Some br /\ nth_error (st_sys st) (fst (sys_of cfg br)) = None) /\
+   st_sys (cleanup cfg st t d) = st_sys st) \/
+  exists br rs, lookup t (st_task st) = Some br /\ nth_error (st_sys st) (fst (sys_of cfg br)) = Some rs /\
+    st_sys (cleanup cfg st t d) = set_nth (fst (sys_of cfg br)) (rs_on_task_remove rs t) (st_sys st).
+Proof.
+  unfold cleanup. destruct (lookup t (st_task st)) as [br|]; simpl; [|left; auto].
+  destruct (nth_error (st_sys st) (fst (sys_of cfg br))) as [rs|] eqn:E; [|left; split; [right; eauto|reflexivity]].
+  right. exists br, rs. auto.
+Qed.
+
+(* ---- induction over reachable states ---------------------------------------------------------- *)
+Lemma run_from_snoc_inv cfg : forall evs st ev st' os', run_from cfg st (evs ++ [ev]) = Ok (st', os') ->
+  exists st1 os1 o, run_from cfg st evs = Ok (st1, os1) /\ step cfg st1 ev = Ok (st', o) /\ os' = os1 ++ [o].
+Proof.
+  induction evs as [|e evs IH]; intros st ev st' os' H; simpl in *.
+  - destruct (step cfg st ev) as [[st1 o]|] eqn:Es; [|discriminate]. inv H.
+    exists st, [], o. auto.
+  - destruct (step cfg st e) as [[st1 o1]|] eqn:Es; [|discriminate].
+    destruct (run_from cfg st1 (evs ++ [ev])) as [[st2 os2]|] eqn:Er; [|discriminate]. inv H.
+    destruct (IH _ _ _ _ Er) as [st3 [os3 [o [Hr [Hs Ho]]]]]. rewrite Hr.
+    exists st3, (o1 :: os3), o. subst os2. auto.
+Qed.
+
+Lemma reach_ind cfg (P : state -> Prop) :
+  P (init cfg) ->
+  (forall evs st os ev st' o, run cfg evs = Ok (st, os) -> P st -> step cfg st ev = Ok (st', o) -> P st') ->
+  forall evs st os, run cfg evs = Ok (st, os) -> P st.
+Proof.
+  intros H0 Hstep evs. induction evs as [|ev evs IH] using rev_ind; intros st os H.
+  - inv H. exact H0.
+  - apply run_from_snoc_inv in H as [st1 [os1 [o [Hr [Hs _]]]]]. eapply Hstep; eauto.
+Qed.
+
+(* ---- which entry the scan returns; on_task_schedule never raises ------------------------------ *)
+Lemma find_promotable_id cfg thr r b thr' t pos : find_promotable cfg thr r b = (thr', Some (t, pos)) ->
+  exists e, nth_error (r_data r) pos = Some e /\ e_id e = t /\ e_prom e = false.
+Proof.
+  unfold find_promotable, find_promotable_metric, find_promotable_cost. intro H.
+  destruct (c_variant cfg) eqn:Ev.
+  1,2,4: destruct (quantile (c_mode cfg) r); [|discriminate];
+    destruct (find_first (admissible cfg thr (r_level r)) (r_data r) 0) as [[e p]|] eqn:Ef; [|discriminate];
+    destruct (accept _ b); [|discriminate]; inv H;
+    apply find_first_some in Ef as [k [Hk [Hn [Ha _]]]]; simpl in Hk; subst k;
+    exists e; split; [exact Hn|]; split; [reflexivity|]; eapply admissible_unprom; eauto.
+  injection H as _ H. destruct (1 <? length (r_data r))%nat; [|discriminate].
+  apply (cost_scan_some _ _ _ (r_data r) (r_data r) [] t pos eq_refl) in H.
+  destruct H as [e [Hn [Hid [Hp _]]]]. exists e. auto.
+Qed.
+
+Lemma scan_id cfg cap b : forall rungs j0 next thr thr' j t pos lvl nxt,
+  scan cfg cap b rungs j0 next thr = (thr', Some (j, t, pos, lvl, nxt)) ->
+  exists k r e, j = (j0 + k)%nat /\ nth_error rungs k = Some r /\ lvl = r_level r /\
+    nth_error (r_data r) pos = Some e /\ e_id e = t /\ e_prom e = false.
+Proof.
+  induction rungs as [|r rest IH]; intros j0 next thr thr' j t pos lvl nxt H; simpl in H; [discriminate|].
+  destruct (r_level r <? cap)%Z.
+  - destruct (find_promotable cfg thr r b) as [thr1 [[t1 p1]|]] eqn:Ef.
+    + inv H. apply find_promotable_id in Ef as [e [Hn [Hid Hp]]].
+      exists 0%nat, r, e. split; [lia|]. repeat split; auto.
+    + apply IH in H as [k [r1 [e [Hj [Hn Hrest]]]]]. exists (S k), r1, e. split; [lia|]. split; [exact Hn|exact Hrest].
+  - apply IH in H as [k [r1 [e [Hj [Hn Hrest]]]]]. exists (S k), r1, e. split; [lia|]. split; [exact Hn|exact Hrest].
+Qed.
+
+Lemma sched_ok cfg rs b : exists rs' p, rs_on_task_schedule cfg rs b = Ok (rs', p).
+Proof.
+  unfold rs_on_task_schedule.
+  destruct (scan cfg (eff_max cfg rs) b (rs_rungs rs) 0 (c_max_t cfg) (rs_thr rs))
+    as [thr' [[[[[j t] pos] lvl] nxt]|]] eqn:Es; [|eauto].
+  apply scan_id in Es as [k [r [e [Hj [Hn [_ [He [_ Hp]]]]]]]]. simpl in Hj. subst k.
+  rewrite Hn. unfold mark_as_promoted. rewrite He, Hp. eauto.
+Qed.
+
+Lemma sched_shape_id cfg rs b rs' j t from nxt : rs_on_task_schedule cfg rs b = Ok (rs', Some (j, t, from, nxt)) ->
+  exists pos r e, nth_error (rs_rungs rs) j = Some r /\ nth_error (r_data r) pos = Some e /\ e_id e = t /\
+    e_prom e = false /\ r_level r = from /\
+    rs_rungs rs' = set_nth j (promoted_rung (c_mode cfg) r pos e) (rs_rungs rs).
+Proof.
+  intro H. apply sched_shape in H as [_ [_ [_ [[Hp _]|[j1 [t1 [from1 [nxt1 [pos [r [e [thr' [Hp [Hscan [Hn [He [Hprom Hr]]]]]]]]]]]]]]]]];
+    [discriminate|]. inv Hp.
+  apply scan_id in Hscan as [k [r2 [e2 [Hj [Hn2 [Hl [He2 [Hid _]]]]]]]]. simpl in Hj. subst k.
+  assert (r2 = r) by congruence. subst r2. assert (e2 = e) by congruence. subst e2.
+  exists pos, r, e. repeat split; auto.
+Qed.
+
+(* ---- counting the unpromoted entries of a trial ------------------------------------------------- *)
+Definition umatch (t : Z) (e : entry) : bool := Z.eqb (e_id e) t && negb (e_prom e).
+Definition ucount_data (t : Z) (l : list entry) : nat := length (filter (umatch t) l).
+Definition ucount_rs (t : Z) (rs : rsys) : nat := list_sum (map (fun r => ucount_data t (r_data r)) (rs_rungs rs)).
+Definition ucount (t : Z) (st : state) : nat := list_sum (map (ucount_rs t) (st_sys st)).
+Definition b2n (b : bool) : nat := if b then 1%nat else 0%nat.
+
+Lemma ucount_insert md t e : forall l, ucount_data t (insert md e l) = (b2n (umatch t e) + ucount_data t l)%nat.
+Proof.
+  unfold ucount_data. induction l as [|x r IH]; simpl.
+  - destruct (umatch t e); reflexivity.
+  - destruct (better_lt md (e_metric e) (e_metric x)); simpl.
+    + destruct (umatch t e); simpl; reflexivity.
+    + destruct (umatch t x); simpl; rewrite IH; lia.
+Qed.
+
+Lemma ucount_remove_nth t : forall l n e, nth_error l n = Some e ->
+  (ucount_data t (remove_nth n l) + b2n (umatch t e))%nat = ucount_data t l.
+Proof.
+  unfold ucount_data. induction l as [|x r IH]; intros [|n] e H; simpl in *; try discriminate.
+  - inv H. destruct (umatch t e); simpl; lia.
+  - specialize (IH _ _ H). destruct (umatch t x); simpl; lia.
+Qed.
+
+Lemma list_sum_set_nth {A} (f : A -> nat) : forall l n x y, nth_error l n = Some y ->
+  (list_sum (map f (set_nth n x l)) + f y)%nat = (list_sum (map f l) + f x)%nat.
+Proof.
+  induction l as [|a l IH]; intros [|n] x y H; simpl in *; try discriminate.
+  - inv H. lia.
+  - specialize (IH _ x _ H). lia.
+Qed.
+
+Lemma umatch_set_prom t e : umatch t (set_prom e) = false.
+Proof. unfold umatch. simpl. apply andb_false_r. Qed.
+
+Lemma sched_count cfg rs b rs' p t : rs_on_task_schedule cfg rs b = Ok (rs', p) ->
+  (ucount_rs t rs' + match p with Some (_, t0, _, _) => b2n (Z.eqb t0 t) | None => 0 end)%nat = ucount_rs t rs.
+Proof.
+  intro H. destruct p as [[[[j t0] from] nxt]|].
+  - apply sched_shape_id in H as [pos [r [e [Hn [He [Hid [Hp [_ Hr]]]]]]]].
+    unfold ucount_rs. rewrite Hr.
+    pose proof (list_sum_set_nth (fun r => ucount_data t (r_data r)) _ _ (promoted_rung (c_mode cfg) r pos e) _ Hn) as Hs.
+    simpl in Hs. rewrite ucount_insert, umatch_set_prom in Hs. simpl in Hs.
+    pose proof (ucount_remove_nth t _ _ _ He) as Hrm.
+    assert (Hm : umatch t e = Z.eqb t0 t).
+    { unfold umatch. rewrite Hid, Hp. simpl. apply andb_true_r. }
+    rewrite Hm in Hrm. lia.
+  - apply sched_shape in H as [_ [_ [_ [[_ [Hr _]]|[j1 [t1 [from1 [nxt1 [pos [r [e [thr' [Hp _]]]]]]]]]]]]]; [|discriminate].
+    unfold ucount_rs. rewrite Hr. lia.
+Qed.
+
+Lemma report_count cfg rs t r m c eps rs' info t' : rs_on_task_report cfg rs t r m c eps = Ok (rs', info) ->
+  ucount_rs t' rs' = ucount_rs t' rs \/
+  (ri_reached info = true /\ ucount_rs t' rs' = (ucount_rs t' rs + b2n (Z.eqb t t'))%nat).
+Proof.
+  intro H. apply report_shape in H as [rs1 [Hp [Hr _]]].
+  apply promo_report_shape in Hp as [_ [_ [_ [_ [Hr1|[p [rg [Hn [_ [_ [Hreach Hr1]]]]]]]]]]];
+    unfold ucount_rs; rewrite Hr, Hr1; [left; reflexivity|].
+  right. split; [exact Hreach|].
+  pose proof (list_sum_set_nth (fun r => ucount_data t' (r_data r)) _ _ (added_rung (c_mode cfg) rg (mkE t m c false)) _ Hn) as Hs.
+  simpl in Hs. rewrite ucount_insert in Hs. unfold umatch in Hs. simpl in Hs. rewrite andb_true_r in Hs. lia.
+Qed.
+
+Lemma ucount_set_nth t st sid rs rs' task active off : nth_error (st_sys st) sid = Some rs ->
+  (ucount t (mkS (set_nth sid rs' (st_sys st)) task active off) + ucount_rs t rs)%nat = (ucount t st + ucount_rs t rs')%nat.
+Proof. intro H. unfold ucount. simpl. apply list_sum_set_nth. exact H. Qed.
+
+Lemma ucount_cleanup cfg st t d t' : ucount t' (cleanup cfg st t d) = ucount t' st.
+Proof.
+  unfold ucount. destruct (cleanup_sys cfg st t d) as [[_ ->]|[br [rs [_ [Hn ->]]]]]; [reflexivity|].
+  pose proof (list_sum_set_nth (ucount_rs t') _ _ (rs_on_task_remove rs t) _ Hn) as Hs.
+  assert (ucount_rs t' (rs_on_task_remove rs t) = ucount_rs t' rs) by reflexivity. lia.
+Qed.
+
+(* ---- invariant: a running trial has no unpromoted entry, any other trial at most one ------------ *)
+(* tuner protocol: on_trial_complete / on_trial_error are only called for trials that are running *)
+Definition proto_ok (st : state) (ev : event) : Prop :=
+  match ev with
+  | Complete t | Fail t => exists ti, lookup t (st_active st) = Some ti /\ ti_dec ti = CONTINUE
+  | _ => True
+  end.
+
+(* [strict = true]: additionally (under the tuner protocol) a trial holding an unpromoted entry is PAUSEd *)
+Definition U_inv (strict : bool) (st : state) : Prop :=
+  forall t, match lookup t (st_active st) with
+            | None => ucount t st = 0%nat
+            | Some ti => (ti_dec ti = CONTINUE -> ucount t st = 0%nat) /\ (ucount t st <= 1)%nat /\
+                         (strict = true -> (1 <= ucount t st)%nat -> ti_dec ti = PAUSE)
+            end.
+
+Lemma U_same_counts strict st st' t0 : U_inv strict st ->
+  (forall t, ucount t st' = ucount t st) ->
+  (forall t, t <> t0 -> lookup t (st_active st') = lookup t (st_active st)) ->
+  match lookup t0 (st_active st') with
+  | None => lookup t0 (st_active st) = None
+  | Some ti' => exists ti, lookup t0 (st_active st) = Some ti /\ (ti_dec ti' = CONTINUE -> ti_dec ti = CONTINUE) /\
+                  (ti_dec ti' = ti_dec ti \/ ti_dec ti' = PAUSE \/ (strict = true -> ti_dec ti = CONTINUE))
+  end ->
+  U_inv strict st'.
+Proof.
+  intros HU Hc Hother H0 t. rewrite Hc. destruct (Z.eq_dec t t0) as [->|Hne].
+  - specialize (HU t0). destruct (lookup t0 (st_active st')) as [ti'|].
+    + destruct H0 as [ti [Hl [Hd Hp]]]. rewrite Hl in HU. destruct HU as [H1 [H2 H3]].
+      split; [auto|]. split; [exact H2|]. intros Hs Hge.
+      destruct Hp as [Hp|[Hp|Hp]]; [rewrite Hp; auto|exact Hp|]. specialize (H1 (Hp Hs)). lia.
+    + rewrite H0 in HU. exact HU.
+  - rewrite Hother by exact Hne. apply HU.
+Qed.
+
+Lemma report_reached cfg rs t r m c eps rs' info : rs_on_task_report cfg rs t r m c eps = Ok (rs', info) ->
+  ri_reached info = true -> run_inv rs -> ri_continues info = false /\ ri_ignore info = false.
+Proof.
+  intros H Hreach HK.
+  destruct (lookup t (rs_running rs)) as [[ms rf]|] eqn:El.
+  - pose proof (report_result_cases cfg rs t r m c eps ms rf El) as Hc. rewrite H in Hc.
+    destruct Hc as [_ [Hr [Hcont Hign]]]. rewrite Hreach in Hr. rewrite <- Hr in Hcont. split; [exact Hcont|].
+    rewrite Hign. destruct rf as [f|]; [|reflexivity]. apply HK in El. lia.
+  - apply report_shape in H as [rs1 [Hp _]]. unfold promo_on_task_report in Hp. rewrite El in Hp. discriminate.
+Qed.
+
+Lemma U_step strict cfg evs st os ev st' o : run cfg evs = Ok (st, os) -> U_inv strict st ->
+  (strict = true -> proto_ok st ev) -> step cfg st ev = Ok (st', o) -> U_inv strict st'.
+Proof.
+  intros Hrun HU Hproto Hstep. destruct ev as [n br b got|t|t r m c eps|t|t|t]; simpl in Hstep.
+  - (* suggest *)
+    apply suggest_shape in Hstep as [rs [rs1 [p [Hn [Hs Hp]]]]].
+    assert (Hcount : forall t' x task active off,
+      (ucount t' (mkS (set_nth (fst (sys_of cfg br)) (set_running rs1 x) (st_sys st)) task active off)
+       + match p with Some (_, t0, _, _) => b2n (Z.eqb t0 t') | None => 0 end)%nat = ucount t' st).
+    { intros t' x task active off.
+      pose proof (ucount_set_nth t' st _ rs (set_running rs1 x) task active off Hn) as H1.
+      pose proof (sched_count cfg rs b rs1 p t' Hs) as H2.
+      assert (ucount_rs t' (set_running rs1 x) = ucount_rs t' rs1) by reflexivity. lia. }
+    destruct p as [[[[j t] rf] ms]|].
+    + destruct Hp as [_ [ti [Hl [Hd [-> _]]]]]. intro t'.
+      specialize (Hcount t' (update t (ms, Some rf) (rs_running rs1)) (update t br (st_task st))
+                         (update t (mkTI CONTINUE (ti_lur ti)) (st_active st)) (st_off st)).
+      specialize (HU t'). simpl st_active. destruct (Z.eq_dec t' t) as [->|Hne].
+      * rewrite lookup_update_eq. rewrite Hl in HU. rewrite Z.eqb_refl in Hcount. simpl in Hcount.
+        destruct HU as [_ [HU _]]. simpl. split; [intros _; lia|]. split; [lia|]. intros _ Hge. lia.
+      * rewrite lookup_update_neq by exact Hne. assert (Ht : (t =? t')%Z = false) by lia. rewrite Ht in Hcount.
+        simpl in Hcount. rewrite Nat.add_0_r in Hcount. rewrite Hcount. exact HU.
+    + destruct Hp as [[_ [_ ->]]|[_ [Hl [_ ->]]]].
+      * replace rs1 with (set_running rs1 (rs_running rs1)) by (destruct rs1; reflexivity).
+        intro t'. specialize (Hcount t' (rs_running rs1) (st_task st) (st_active st) (st_off st)).
+        simpl in Hcount. rewrite Nat.add_0_r in Hcount. rewrite Hcount. apply HU.
+      * intro t'. unfold rs_on_task_add_new.
+        specialize (Hcount t' (update n (first_milestone cfg rs1 (snd (sys_of cfg br)), None) (rs_running rs1))
+                           (update n br (st_task st)) (update n (mkTI CONTINUE None) (st_active st)) (st_off st)).
+        simpl in Hcount. rewrite Nat.add_0_r in Hcount. rewrite Hcount. simpl st_active.
+        specialize (HU t'). destruct (Z.eq_dec t' n) as [->|Hne].
+        -- rewrite lookup_update_eq. rewrite Hl in HU. simpl. split; [intros _; lia|]. split; [lia|]. intros _ Hge. lia.
+        -- rewrite lookup_update_neq by exact Hne. exact HU.
+  - inv Hstep. exact HU.
+  - (* report *)
+    destruct (on_trial_result cfg st t r m c eps) as [[st1 d]|] eqn:E; [|discriminate]. inv Hstep.
+    apply on_trial_result_shape in E as [_ [ti [Hl [[_ [-> _]]|[Hd [br [rs [rs' [info [off' [lur' [Ht [Hn [Hout Hcases]]]]]]]]]]]]]];
+      [exact HU|].
+    assert (HK := reach_run_inv _ _ _ _ _ _ Hrun Hn).
+    assert (Hcnt : forall t' task active off,
+       ucount t' (mkS (set_nth (fst (sys_of cfg br)) rs' (st_sys st)) task active off) = ucount t' st \/
+       (ri_continues info = false /\ ri_ignore info = false /\ (r <? c_max_t cfg)%Z = true /\
+        ucount t' (mkS (set_nth (fst (sys_of cfg br)) rs' (st_sys st)) task active off) = (ucount t' st + b2n (Z.eqb t t'))%nat)).
+    { intros t' task active off.
+      pose proof (ucount_set_nth t' st _ rs rs' task active off Hn) as H1.
+      unfold report_outcome in Hout. destruct (r <? c_max_t cfg)%Z.
+      - destruct (report_count _ _ _ _ _ _ _ _ _ t' Hout) as [Hc|[Hreach Hc]].
+        + left. lia.
+        + right. destruct (report_reached _ _ _ _ _ _ _ _ _ Hout Hreach HK) as [Hcont Hign].
+          split; [exact Hcont|]. split; [exact Hign|]. split; [reflexivity|]. lia.
+      - inv Hout. left. lia. }
+    specialize (HU t) as HUt. rewrite Hl in HUt. destruct HUt as [HUt0 _]. specialize (HUt0 Hd).
+    destruct Hcases as [[Hign [-> _]]|[[Hign [Hcont [-> _]]]|[Hign [Hcont [-> Hdd]]]]].
+    + (* ignored *)
+      apply (U_same_counts strict st _ t); auto.
+      * intro t'. destruct (Hcnt t' (st_task st) (st_active st) off') as [Hc|[_ [Hi _]]]; [exact Hc|congruence].
+      * simpl. rewrite Hl. exists ti. split; [reflexivity|]. split; [auto|]. left. reflexivity.
+    + apply (U_same_counts strict st _ t); auto.
+      * intro t'. destruct (Hcnt t' (st_task st) (update t (mkTI CONTINUE lur') (st_active st)) off') as [Hc|[Hc' _]];
+          [exact Hc|congruence].
+      * intros t' Hne. simpl. apply lookup_update_neq. exact Hne.
+      * simpl. rewrite lookup_update_eq. exists ti. split; [exact Hl|]. split; [auto|]. left. simpl. congruence.
+    + (* paused / stopped *)
+      intro t'. rewrite ucount_cleanup, cleanup_active. simpl st_active. rewrite lookup_update_eq.
+      assert (Hdne : d <> CONTINUE) by (rewrite Hdd; destruct (c_max_t cfg <=? r)%Z; discriminate).
+      destruct (Hcnt t' (st_task st) (update t (mkTI CONTINUE lur') (st_active st)) off') as [Hc|[_ [_ [Hlt Hc]]]]; rewrite Hc.
+      * specialize (HU t'). destruct (Z.eqb t' t) eqn:Et.
+        -- assert (t' = t) by lia. subst t'. simpl. split; [intro; contradiction|]. split; [lia|]. intros _ Hge. lia.
+        -- rewrite lookup_update_neq by lia. exact HU.
+      * specialize (HU t'). destruct (Z.eqb t' t) eqn:Et.
+        -- assert (t' = t) by lia. subst t'. rewrite Z.eqb_refl. simpl. split; [intro; contradiction|]. split; [lia|].
+           intros _ _. rewrite Hdd. assert (Hle : (c_max_t cfg <=? r)%Z = false) by lia. rewrite Hle. reflexivity.
+        -- rewrite lookup_update_neq by lia. assert (Ht' : (t =? t')%Z = false) by lia. rewrite Ht'. simpl.
+           rewrite Nat.add_0_r. exact HU.
+  - (* remove *)
+    inv Hstep. apply (U_same_counts strict st _ t); auto.
+    + intro t'. apply ucount_cleanup.
+    + intros t' Hne. rewrite cleanup_active. assert (Ht' : (t' =? t)%Z = false) by lia. rewrite Ht'. reflexivity.
+    + rewrite cleanup_active, Z.eqb_refl. destruct (lookup t (st_active st)) as [ti|]; [|reflexivity].
+      exists ti. split; [reflexivity|]. simpl. split; [discriminate|]. right. left. reflexivity.
+  - destruct (lookup t (st_active st)) as [ti0|] eqn:El0; [|discriminate]. inv Hstep.
+    apply (U_same_counts strict st _ t); auto.
+    + intro t'. apply ucount_cleanup.
+    + intros t' Hne. rewrite cleanup_active. assert (Ht' : (t' =? t)%Z = false) by lia. rewrite Ht'. reflexivity.
+    + rewrite cleanup_active, Z.eqb_refl, El0. exists ti0. split; [reflexivity|]. simpl. split; [discriminate|].
+      right. right. intro Hs. destruct (Hproto Hs) as [ti1 [Hl1 Hd1]]. congruence.
+  - inv Hstep. apply (U_same_counts strict st _ t); auto.
+    + intro t'. apply ucount_cleanup.
+    + intros t' Hne. rewrite cleanup_active. assert (Ht' : (t' =? t)%Z = false) by lia. rewrite Ht'. reflexivity.
+    + rewrite cleanup_active, Z.eqb_refl. destruct (lookup t (st_active st)) as [ti|] eqn:El0; [|reflexivity].
+      exists ti. split; [reflexivity|]. simpl. split; [discriminate|].
+      right. right. intro Hs. destruct (Hproto Hs) as [ti1 [Hl1 Hd1]]. congruence.
+Qed.
+
+Lemma list_sum_zero {A} (f : A -> nat) : forall l, (forall x, In x l -> f x = 0%nat) -> list_sum (map f l) = 0%nat.
+Proof. induction l as [|a l IH]; intros H; simpl; [reflexivity|]. rewrite (H a), IH; auto; [|left; reflexivity]. intros; apply H; right; assumption. Qed.
+
+Lemma U_init strict cfg : U_inv strict (init cfg).
+Proof.
+  intro t. simpl. unfold ucount. simpl. apply list_sum_zero. intros rs Hin.
+  apply in_map_iff in Hin as [s [<- _]]. unfold ucount_rs, mk_sys. simpl.
+  apply list_sum_zero. intros r Hr. apply in_rev in Hr. apply in_map_iff in Hr as [p [<- _]]. reflexivity.
+Qed.
+
+(* an event list that follows the protocol of [proto_ok] along the run from [st] *)
+Fixpoint proto_from (cfg : config) (st : state) (evs : list event) : Prop :=
+  match evs with
+  | [] => True
+  | ev :: rest => proto_ok st ev /\
+                  match step cfg st ev with Ok (st', _) => proto_from cfg st' rest | Err _ => True end
+  end.
+
+Lemma proto_snoc cfg : forall evs st ev, proto_from cfg st (evs ++ [ev]) ->
+  proto_from cfg st evs /\ (forall st1 os1, run_from cfg st evs = Ok (st1, os1) -> proto_ok st1 ev).
+Proof.
+  induction evs as [|e evs IH]; intros st ev H; simpl in *.
+  - split; [exact I|]. intros st1 os1 Hr. inv Hr. apply H.
+  - destruct H as [H0 H]. destruct (step cfg st e) as [[st' o]|] eqn:Es.
+    + apply IH in H as [H1 H2]. split; [split; assumption|].
+      intros st1 os1 Hr. destruct (run_from cfg st' evs) as [[st2 os2]|] eqn:Er; [|discriminate]. inv Hr. eauto.
+    + split; [split; [assumption|exact I]|]. intros st1 os1 Hr. discriminate.
+Qed.
+
+Lemma reach_U cfg : forall evs st os, run cfg evs = Ok (st, os) -> U_inv false st.
+Proof.
+  apply reach_ind; [apply U_init|]. intros evs st os ev st' o Hrun HU Hstep.
+  eapply U_step; eauto. discriminate.
+Qed.
+
+Lemma reach_U_strict cfg : forall evs st os, proto_from cfg (init cfg) evs -> run cfg evs = Ok (st, os) -> U_inv true st.
+Proof.
+  induction evs as [|ev evs IH] using rev_ind; intros st os Hp H.
+  - inv H. apply U_init.
+  - apply proto_snoc in Hp as [Hp Hok]. apply run_from_snoc_inv in H as [st1 [os1 [o [Hr [Hs _]]]]].
+    eapply U_step; eauto.
+Qed.
+
+Lemma list_sum_ge {A} (f : A -> nat) : forall l n x, nth_error l n = Some x -> (f x <= list_sum (map f l))%nat.
+Proof. induction l as [|a l IH]; intros [|n] x H; simpl in *; try discriminate; [inv H; lia|]. specialize (IH _ _ H). lia. Qed.
+
+Lemma ucount_ge st s rs j r pos e : nth_error (st_sys st) s = Some rs -> nth_error (rs_rungs rs) j = Some r ->
+  nth_error (r_data r) pos = Some e -> e_prom e = false -> (1 <= ucount (e_id e) st)%nat.
+Proof.
+  intros Hs Hj Hp Hprom.
+  pose proof (list_sum_ge (ucount_rs (e_id e)) _ _ _ Hs) as H1.
+  pose proof (list_sum_ge (fun r => ucount_data (e_id e) (r_data r)) _ _ _ Hj) as H2.
+  assert (H3 : (1 <= ucount_data (e_id e) (r_data r))%nat).
+  { unfold ucount_data. apply nth_error_In in Hp.
+    assert (Hin : In e (filter (umatch (e_id e)) (r_data r))).
+    { apply filter_In. split; [exact Hp|]. unfold umatch. rewrite Z.eqb_refl, Hprom. reflexivity. }
+    destruct (filter (umatch (e_id e)) (r_data r)); [destruct Hin|simpl; lia]. }
+  unfold ucount, ucount_rs in *. lia.
+Qed.
+
+(* ---- the assertions of _promote_trial / on_task_add / _mark_as_promoted never fail ------------------- *)
+Lemma suggest_no_assert cfg evs st os n br b got :
+  cfg_wf cfg -> run cfg evs = Ok (st, os) -> suggest cfg st n br b got <> Err EAssert.
+Proof.
+  intros Hcfg Hrun. unfold suggest. destruct (sys_of cfg br) as [sid skip] eqn:Esys.
+  destruct (nth_error (st_sys st) sid) as [rs|] eqn:En; [|discriminate].
+  destruct (sched_ok cfg rs b) as [rs1 [p Hs]]. rewrite Hs.
+  destruct p as [[[[j t] rf] ms]|].
+  2: { destruct (negb got); [discriminate|]. destruct (lookup n (st_active st)); discriminate. }
+  (* resume_from < milestone *)
+  assert (Hlt : (rf < ms)%Z).
+  { destruct (reach_wf _ _ _ _ _ _ Hrun En) as [Hlv Hsorted].
+    assert (Hnd : NoDup (map r_level (rs_rungs rs))) by (rewrite Hlv; apply static_levels_nodup; exact Hcfg).
+    assert (Hs2 := Hs).
+    apply sched_shape in Hs2 as [_ [_ [_ [[Hp _]|[j1 [t1 [from1 [nxt1 [pos1 [r1 [e1 [thr' [Hp [Hscan _]]]]]]]]]]]]]]; [discriminate|].
+    injection Hp as Hj1 Ht1 Hf1 Hn1. subst j1 t1 from1 nxt1.
+    pose proof (scan_spec cfg (eff_max cfg rs) b (rs_thr rs) (rs_rungs rs) 0 (c_max_t cfg) (rs_thr rs)
+                  (fun _ _ => eq_refl) Hnd Hsorted) as Hspec.
+    rewrite Hscan in Hspec. destruct Hspec as [pre [r2 [post [Hrungs [Hj [Hl2 [_ [Hnxt _]]]]]]]].
+    simpl in Hj. rewrite Hnxt, (last_pre_next_above cfg pre r2 post), <- Hrungs.
+    assert (Hdesc : StronglySorted Z.gt (map r_level (rs_rungs rs))) by (rewrite Hlv; apply static_levels_desc; exact Hcfg).
+    assert (Hjl : nth_error (map r_level (rs_rungs rs)) (length pre) = Some rf).
+    { rewrite nth_error_map, Hrungs, nth_error_app_mid. simpl. congruence. }
+    unfold next_above. destruct (length pre) as [|j'] eqn:Elen.
+    - assert (Hin : In rf (c_levels cfg)).
+      { eapply static_levels_in. rewrite <- Hlv. eapply nth_error_In; eauto. }
+      destruct Hcfg as [_ Hf]. rewrite Forall_forall in Hf. apply Hf in Hin. lia.
+    - destruct (nth_error (rs_rungs rs) j') as [r'|] eqn:Er'.
+      + assert (Hj' : nth_error (map r_level (rs_rungs rs)) j' = Some (r_level r')) by (rewrite nth_error_map, Er'; reflexivity).
+        eapply (ss_gt_nth _ j' (S j')); eauto.
+      + apply nth_error_None in Er'.
+        assert (S j' < length (map r_level (rs_rungs rs)))%nat by (apply nth_error_Some; congruence).
+        rewrite map_length in *. lia. }
+  assert (Hs' := Hs). apply sched_shape_id in Hs' as [pos [r [e [Hnj [Hne [Hid [Hprom [Hlev _]]]]]]]].
+  unfold rs_on_task_add_resumed. assert (E : (rf <? ms)%Z = true) by lia. rewrite E.
+  (* the trial is known and not running *)
+  pose proof (reach_U _ _ _ _ Hrun t) as HU.
+  assert (Hge : (1 <= ucount t st)%nat) by (rewrite <- Hid; eapply ucount_ge; eauto).
+  destruct (lookup t (st_active st)) as [ti|]; [|lia].
+  destruct HU as [HU0 _]. destruct (decision_eqb (ti_dec ti) CONTINUE) eqn:Ed; [|discriminate].
+  assert (ti_dec ti = CONTINUE) by (destruct (ti_dec ti); try discriminate; reflexivity).
+  specialize (HU0 H). lia.
+Qed.
+
+Lemma promo_err_kinds cfg rs t r m c e : promo_on_task_report cfg rs t r m c = Err e -> e <> EAssert.
+Proof.
+  unfold promo_on_task_report. intro H.
+  repeat (break_in H; try discriminate); inv H; discriminate.
+Qed.
+
+Lemma report_err_kinds cfg rs t r m c eps e : rs_on_task_report cfg rs t r m c eps = Err e -> e <> EAssert.
+Proof.
+  unfold rs_on_task_report, pasha_on_task_report. intro H.
+  destruct (c_variant cfg); try (eapply promo_err_kinds; eauto; fail).
+  destruct (promo_on_task_report cfg rs t r m c) as [[rs1 info]|e1] eqn:Ep.
+  - destruct (pasha_increase cfg rs1 eps) as [[|]|e2] eqn:Ei.
+    + repeat (break_in H; try discriminate); inv H; discriminate.
+    + discriminate.
+    + apply pasha_increase_err in Ei. inv H. discriminate.
+  - inv H. eapply promo_err_kinds; eauto.
+Qed.
+
+Lemma on_trial_result_no_assert cfg st t r m c eps : on_trial_result cfg st t r m c eps <> Err EAssert.
+Proof.
+  unfold on_trial_result. intro H.
+  destruct (r <? 1)%Z; [discriminate|].
+  destruct (lookup t (st_active st)) as [ti|]; [|discriminate].
+  destruct (negb (decision_eqb (ti_dec ti) CONTINUE)); [discriminate|].
+  destruct (lookup t (st_task st)) as [br|]; [|discriminate].
+  destruct (nth_error (st_sys st) (fst (sys_of cfg br))) as [rs|]; [|discriminate].
+  match type of H with context [match ?X with Ok _ => _ | Err _ => _ end] =>
+    destruct X as [[rs' info]|e] eqn:Ex end.
+  - repeat (break_inner_in H; try discriminate).
+  - inv H. destruct (r <? c_max_t cfg)%Z; [|discriminate]. eapply report_err_kinds; eauto.
+Qed.
+
+Lemma run_from_snoc_err cfg : forall evs st ev e, run_from cfg st (evs ++ [ev]) = Err e ->
+  run_from cfg st evs = Err e \/ exists st1 os1, run_from cfg st evs = Ok (st1, os1) /\ step cfg st1 ev = Err e.
+Proof.
+  induction evs as [|e0 evs IH]; intros st ev e H; simpl in *.
+  - right. exists st, []. split; [reflexivity|]. destruct (step cfg st ev) as [[st1 o]|]; [discriminate|congruence].
+  - destruct (step cfg st e0) as [[st1 o1]|] eqn:Es; [|left; exact H].
+    destruct (run_from cfg st1 (evs ++ [ev])) as [[st2 os2]|] eqn:Er; [discriminate|]. inv H.
+    apply IH in Er as [Er|[st3 [os3 [Hr Hs]]]].
+    + left. rewrite Er. reflexivity.
+    + right. rewrite Hr. eauto.
+Qed.
+
+(* no event sequence makes an assertion of _promote_trial / on_task_add / _mark_as_promoted fail *)
+Lemma run_no_assert cfg : cfg_wf cfg -> forall evs, run cfg evs <> Err EAssert.
+Proof.
+  intros Hcfg evs. induction evs as [|ev evs IH] using rev_ind; [discriminate|].
+  intro H. apply run_from_snoc_err in H as [H|[st1 [os1 [Hr Hs]]]]; [exact (IH H)|].
+  destruct ev; simpl in Hs; try discriminate.
+  - eapply suggest_no_assert; eauto.
+  - destruct (on_trial_result cfg st1 t resource metric cost eps) as [[st2 d]|e] eqn:E; [discriminate|].
+    inv Hs. eapply on_trial_result_no_assert; eauto.
+  - destruct (lookup t (st_active st1)); discriminate.
+Qed.
+
+(* ---- invariant: _task_info / _running hold exactly the running trials ---------------------------- *)
+Definition R_inv (cfg : config) (st : state) : Prop :=
+  (forall t br, lookup t (st_task st) = Some br ->
+     exists ti, lookup t (st_active st) = Some ti /\ ti_dec ti = CONTINUE) /\
+  (forall t s rs x, nth_error (st_sys st) s = Some rs -> lookup t (rs_running rs) = Some x ->
+     exists br, lookup t (st_task st) = Some br /\ fst (sys_of cfg br) = s).
+
+Lemma nth_set_nth_cases {A} (l : list A) sid (x : A) s y old : nth_error l sid = Some old ->
+  nth_error (set_nth sid x l) s = Some y -> (s = sid /\ y = x) \/ (s <> sid /\ nth_error l s = Some y).
+Proof.
+  intros Ho H. destruct (Nat.eq_dec sid s) as [->|Hne].
+  - rewrite (nth_error_set_nth_eq _ _ _ _ Ho) in H. inv H. left. auto.
+  - rewrite nth_error_set_nth_neq in H by exact Hne. right. split; [congruence|exact H].
+Qed.
+
+Lemma R_sys_same cfg st sid rs rs' active' off' : R_inv cfg st ->
+  nth_error (st_sys st) sid = Some rs -> rs_running rs' = rs_running rs ->
+  (forall t br, lookup t (st_task st) = Some br -> exists ti, lookup t active' = Some ti /\ ti_dec ti = CONTINUE) ->
+  R_inv cfg (mkS (set_nth sid rs' (st_sys st)) (st_task st) active' off').
+Proof.
+  intros [Ra Rb] Hn Hrun Hact. split; simpl; [exact Hact|].
+  intros t s rs0 x Hs Hl. destruct (nth_set_nth_cases _ _ _ _ _ _ Hn Hs) as [[-> ->]|[_ Hs']].
+  - rewrite Hrun in Hl. eapply Rb; eauto.
+  - eapply Rb; eauto.
+Qed.
+
+Lemma R_add cfg st sid rs rs1 t br x l : R_inv cfg st ->
+  nth_error (st_sys st) sid = Some rs -> rs_running rs1 = rs_running rs ->
+  lookup t (st_task st) = None -> fst (sys_of cfg br) = sid ->
+  R_inv cfg (mkS (set_nth sid (set_running rs1 (update t x (rs_running rs1))) (st_sys st))
+                 (update t br (st_task st)) (update t (mkTI CONTINUE l) (st_active st)) (st_off st)).
+Proof.
+  intros [Ra Rb] Hn Hrun Hnone Hsid. split; simpl.
+  - intros t' br' Hl. destruct (Z.eq_dec t' t) as [->|Hne].
+    + rewrite lookup_update_eq. eauto.
+    + rewrite lookup_update_neq by exact Hne. rewrite lookup_update_neq in Hl by exact Hne. eauto.
+  - intros t' s rs0 x' Hs Hl. destruct (nth_set_nth_cases _ _ _ _ _ _ Hn Hs) as [[-> ->]|[Hne Hs']].
+    + simpl in Hl. destruct (Z.eq_dec t' t) as [->|Hnet].
+      * exists br. rewrite lookup_update_eq. auto.
+      * rewrite lookup_update_neq by exact Hnet. rewrite lookup_update_neq in Hl by exact Hnet. rewrite Hrun in Hl. eapply Rb; eauto.
+    + destruct (Z.eq_dec t' t) as [->|Hnet].
+      * destruct (Rb _ _ _ _ Hs' Hl) as [br0 [Hbr0 _]]. congruence.
+      * rewrite lookup_update_neq by exact Hnet. eapply Rb; eauto.
+Qed.
+
+Lemma R_cleanup cfg st t d : R_inv cfg st -> d <> CONTINUE -> R_inv cfg (cleanup cfg st t d).
+Proof.
+  intros [Ra Rb] Hd. split.
+  - intros t' br Hl. rewrite cleanup_task in Hl. rewrite cleanup_active.
+    destruct (Z.eqb t' t); [discriminate|]. eauto.
+  - intros t' s rs0 x Hs Hl. rewrite cleanup_task.
+    destruct (cleanup_sys cfg st t d) as [[Hwhy Heq]|[br [rs [Ht [Hn Heq]]]]]; rewrite Heq in Hs.
+    + destruct (Rb _ _ _ _ Hs Hl) as [br0 [Hbr0 Hsid]]. destruct (Z.eqb t' t) eqn:Et; [|eauto].
+      assert (t' = t) by lia. subst t'. exfalso.
+      destruct Hwhy as [Hnone|[br1 [Hbr1 Hnth]]]; [congruence|].
+      assert (br1 = br0) by congruence. subst br1. rewrite Hsid in Hnth. congruence.
+    + destruct (nth_set_nth_cases _ _ _ _ _ _ Hn Hs) as [[-> ->]|[Hne Hs']].
+      * simpl in Hl. destruct (Z.eqb t' t) eqn:Et.
+        -- assert (t' = t) by lia. subst t'. rewrite lookup_remove_eq in Hl. discriminate.
+        -- rewrite lookup_remove_neq in Hl by lia. eapply Rb; eauto.
+      * destruct (Rb _ _ _ _ Hs' Hl) as [br0 [Hbr0 Hsid]]. destruct (Z.eqb t' t) eqn:Et; [|eauto].
+        assert (t' = t) by lia. subst t'. congruence.
+Qed.
+
+Lemma R_task_none cfg st t : R_inv cfg st ->
+  (forall ti, lookup t (st_active st) = Some ti -> ti_dec ti <> CONTINUE) ->
+  lookup t (st_task st) = None /\ forall s rs, nth_error (st_sys st) s = Some rs -> lookup t (rs_running rs) = None.
+Proof.
+  intros [Ra Rb] Hd.
+  assert (Hnone : lookup t (st_task st) = None).
+  { destruct (lookup t (st_task st)) as [br|] eqn:E; [|reflexivity].
+    destruct (Ra _ _ E) as [ti [Hl Hc]]. exfalso. eapply Hd; eauto. }
+  split; [exact Hnone|]. intros s rs Hs. destruct (lookup t (rs_running rs)) as [x|] eqn:E; [|reflexivity].
+  destruct (Rb _ _ _ _ Hs E) as [br [Hbr _]]. congruence.
+Qed.
+
+Lemma R_step cfg st ev st' o : R_inv cfg st -> step cfg st ev = Ok (st', o) -> R_inv cfg st'.
+Proof.
+  intros HR Hstep. destruct ev as [n br b got|t|t r m c eps|t|t|t]; simpl in Hstep.
+  - apply suggest_shape in Hstep as [rs [rs1 [p [Hn [Hs Hp]]]]].
+    assert (Hrun : rs_running rs1 = rs_running rs) by (apply sched_shape in Hs; apply Hs).
+    destruct p as [[[[j t] rf] ms]|].
+    + destruct Hp as [_ [ti [Hl [Hd [-> _]]]]].
+      apply (R_add cfg st _ rs); auto.
+      apply (R_task_none cfg st t HR). intros ti' Hl'. congruence.
+    + destruct Hp as [[_ [_ ->]]|[_ [Hl [_ ->]]]].
+      * apply (R_sys_same cfg st _ rs); auto. apply HR.
+      * unfold rs_on_task_add_new. apply (R_add cfg st _ rs); auto.
+        apply (R_task_none cfg st n HR). intros ti' Hl'. congruence.
+  - inv Hstep. exact HR.
+  - destruct (on_trial_result cfg st t r m c eps) as [[st1 d]|] eqn:E; [|discriminate]. inv Hstep.
+    apply on_trial_result_shape in E as [_ [ti [Hl [[_ [-> _]]|[Hd [br [rs [rs' [info [off' [lur' [Ht [Hn [Hout Hcases]]]]]]]]]]]]]];
+      [exact HR|].
+    assert (Hrun : rs_running rs' = rs_running rs).
+    { unfold report_outcome in Hout. destruct (r <? c_max_t cfg)%Z; [|inv Hout; reflexivity].
+      apply report_shape in Hout as [rs1 [Hp [_ [Hr _]]]]. apply promo_report_shape in Hp as [Hr1 _]. congruence. }
+    assert (HR1 : forall off, R_inv cfg (mkS (set_nth (fst (sys_of cfg br)) rs' (st_sys st)) (st_task st)
+                                    (update t (mkTI CONTINUE lur') (st_active st)) off)).
+    { intro off. apply (R_sys_same cfg st _ rs); auto. intros t' br' Hl'.
+      destruct (Z.eq_dec t' t) as [->|Hne]; [rewrite lookup_update_eq; eauto|].
+      rewrite lookup_update_neq by exact Hne. destruct HR as [Ra _]. eauto. }
+    destruct Hcases as [[_ [-> _]]|[[_ [_ [-> _]]]|[_ [_ [-> Hdd]]]]].
+    + apply (R_sys_same cfg st _ rs); auto. apply HR.
+    + apply HR1.
+    + apply R_cleanup; [apply HR1|]. rewrite Hdd. destruct (c_max_t cfg <=? r)%Z; discriminate.
+  - inv Hstep. apply R_cleanup; [exact HR|discriminate].
+  - destruct (lookup t (st_active st)); [|discriminate]. inv Hstep. apply R_cleanup; [exact HR|discriminate].
+  - inv Hstep. apply R_cleanup; [exact HR|discriminate].
+Qed.
+
+Lemma R_init cfg : R_inv cfg (init cfg).
+Proof.
+  split; simpl; [intros; discriminate|]. intros t s rs x Hs Hl.
+  apply nth_error_map_seq in Hs as [-> _]. simpl in Hl. discriminate.
+Qed.
+
+Lemma reach_R cfg : forall evs st os, run cfg evs = Ok (st, os) -> R_inv cfg st.
+Proof.
+  apply reach_ind; [apply R_init|]. intros evs st os ev st' o _ HR Hstep. eapply R_step; eauto.
+Qed.
+
+(* C04 resumes only paused: full statement *)
+Lemma resumes_only_paused cfg evs st os n br b got st' t mra s j from nxt :
+  cfg_wf cfg -> run cfg evs = Ok (st, os) ->
+  suggest cfg st n br b got = Ok (st', OResume t mra s j from nxt) ->
+  (exists ti, lookup t (st_active st) = Some ti /\ ti_dec ti <> CONTINUE /\
+              (proto_from cfg (init cfg) evs -> ti_dec ti = PAUSE)) /\
+  lookup t (st_task st) = None /\
+  (forall s' rs, nth_error (st_sys st) s' = Some rs -> lookup t (rs_running rs) = None).
+Proof.
+  intros Hcfg Hrun H.
+  destruct (resume_not_running _ _ _ _ _ _ _ _ _ _ _ _ _ H) as [[ti [Hl Hd]] _].
+  assert (HR := reach_R _ _ _ _ Hrun).
+  destruct (R_task_none cfg st t HR) as [Htask Hrunning]; [intros ti' Hl'; congruence|].
+  split; [|split; assumption].
+  exists ti. split; [exact Hl|]. split; [exact Hd|]. intro Hproto.
+  pose proof (reach_U_strict _ _ _ _ Hproto Hrun t) as HU. rewrite Hl in HU. destruct HU as [_ [_ HU]].
+  apply HU; [reflexivity|].
+  destruct (eligibility_sound _ _ _ _ _ _ _ _ _ _ _ _ _ _ _ Hcfg Hrun H)
+    as [rs [r [pos [e [_ [En [Hnj [_ [_ [[Hne _] [Hid [Hp _]]]]]]]]]]]].
+  rewrite <- Hid. eapply ucount_ge; eauto.
+Qed.
+
+(* ---- consecutive reporting never skips a milestone ------------------------------------------------- *)
+(* (milestone, resume_from) of a trial that is running with complete bookkeeping *)
+Definition view (cfg : config) (st : state) (t : Z) : option (Z * option Z) :=
+  match lookup t (st_active st), lookup t (st_task st) with
+  | Some ti, Some br =>
+      if decision_eqb (ti_dec ti) CONTINUE then
+        match nth_error (st_sys st) (fst (sys_of cfg br)) with
+        | Some rs => lookup t (rs_running rs)
+        | None => None
+        end
+      else None
+  | _, _ => None
+  end.
+
+Definition run_of (t : Z) (sys : list rsys) (s : nat) : option (option (Z * option Z)) :=
+  option_map (fun rs => lookup t (rs_running rs)) (nth_error sys s).
+
+Lemma view_ext cfg st st' t :
+  option_map ti_dec (lookup t (st_active st')) = option_map ti_dec (lookup t (st_active st)) ->
+  lookup t (st_task st') = lookup t (st_task st) ->
+  (forall s, run_of t (st_sys st') s = run_of t (st_sys st) s) -> view cfg st' t = view cfg st t.
+Proof.
+  intros Ha Ht Hs. unfold view. rewrite Ht.
+  destruct (lookup t (st_active st')) as [ti'|], (lookup t (st_active st)) as [ti|]; simpl in Ha; try discriminate;
+    [|reflexivity].
+  injection Ha as Ha. rewrite Ha.
+  destruct (lookup t (st_task st)) as [br|]; [|reflexivity].
+  destruct (decision_eqb (ti_dec ti) CONTINUE); [|reflexivity].
+  specialize (Hs (fst (sys_of cfg br))). unfold run_of in Hs.
+  destruct (nth_error (st_sys st') (fst (sys_of cfg br))), (nth_error (st_sys st) (fst (sys_of cfg br)));
+    simpl in Hs; congruence.
+Qed.
+
+Lemma run_of_set_nth t sys sid rs rs' s : nth_error sys sid = Some rs ->
+  lookup t (rs_running rs') = lookup t (rs_running rs) -> run_of t (set_nth sid rs' sys) s = run_of t sys s.
+Proof.
+  intros Hn Hl. unfold run_of. destruct (Nat.eq_dec sid s) as [<-|Hne].
+  - rewrite (nth_error_set_nth_eq _ _ _ _ Hn), Hn. simpl. congruence.
+  - rewrite nth_error_set_nth_neq by exact Hne. reflexivity.
+Qed.
+
+Lemma view_cleanup_other cfg st t d t' : t' <> t -> view cfg (cleanup cfg st t d) t' = view cfg st t'.
+Proof.
+  intro Hne. apply view_ext.
+  - rewrite cleanup_active. assert (E : (t' =? t)%Z = false) by lia. rewrite E. reflexivity.
+  - rewrite cleanup_task. assert (E : (t' =? t)%Z = false) by lia. rewrite E. reflexivity.
+  - intro s. destruct (cleanup_sys cfg st t d) as [[_ ->]|[br [rs [_ [Hn ->]]]]]; [reflexivity|].
+    apply (run_of_set_nth _ _ _ rs); [exact Hn|]. simpl. apply lookup_remove_neq. exact Hne.
+Qed.
+
+Lemma view_cleanup_self cfg st t d : view cfg (cleanup cfg st t d) t = None.
+Proof.
+  unfold view. rewrite cleanup_task, Z.eqb_refl. destruct (lookup t (st_active (cleanup cfg st t d))); reflexivity.
+Qed.
+
+Lemma view_some cfg st t ms rf : view cfg st t = Some (ms, rf) ->
+  exists ti br rs, lookup t (st_active st) = Some ti /\ ti_dec ti = CONTINUE /\ lookup t (st_task st) = Some br /\
+    nth_error (st_sys st) (fst (sys_of cfg br)) = Some rs /\ lookup t (rs_running rs) = Some (ms, rf).
+Proof.
+  unfold view. intro H. destruct (lookup t (st_active st)) as [ti|] eqn:Ea; [|discriminate].
+  destruct (lookup t (st_task st)) as [br|] eqn:Et; [|discriminate].
+  destruct (decision_eqb (ti_dec ti) CONTINUE) eqn:Ed; [|discriminate].
+  destruct (nth_error (st_sys st) (fst (sys_of cfg br))) as [rs|] eqn:En; [|discriminate].
+  exists ti, br, rs. split; [reflexivity|]. split; [destruct (ti_dec ti); try discriminate; reflexivity|].
+  split; [reflexivity|]. split; [exact En|exact H].
+Qed.
+
+Lemma view_intro cfg st t ti br rs : lookup t (st_active st) = Some ti -> ti_dec ti = CONTINUE ->
+  lookup t (st_task st) = Some br -> nth_error (st_sys st) (fst (sys_of cfg br)) = Some rs ->
+  view cfg st t = lookup t (rs_running rs).
+Proof. intros Ha Hd Ht Hn. unfold view. rewrite Ha, Ht, Hd, Hn. reflexivity. Qed.
+
+Definition lastv (t : Z) (last : list (Z * Z)) : Z := match lookup t last with Some v => v | None => 0%Z end.
+Lemma lastv_update_eq t v last : lastv t (update t v last) = v.
+Proof. unfold lastv. rewrite lookup_update_eq. reflexivity. Qed.
+Lemma lastv_update_neq t t' v last : t' <> t -> lastv t' (update t v last) = lastv t' last.
+Proof. intro H. unfold lastv. rewrite lookup_update_neq by exact H. reflexivity. Qed.
+
+Definition is_running (st : state) (t : Z) : bool :=
+  match lookup t (st_active st) with Some ti => decision_eqb (ti_dec ti) CONTINUE | None => false end.
+
+(* consecutive reporting: a running trial's report is one above its previous report in this run; a new
+   trial starts at 1; a resumed trial continues after resume_from (checkpoint) or restarts at 1
+   (no checkpointing) — chosen per resume.  [last] is the ghost map trial -> last reported level *)
+Definition report_ok (st : state) (last : list (Z * Z)) (ev : event) : Prop :=
+  match ev with
+  | Report t r _ _ _ => is_running st t = true -> r = (lastv t last + 1)%Z
+  | _ => True
+  end.
+Fixpoint consecutive (cfg : config) (st : state) (last : list (Z * Z)) (evs : list event) : Prop :=
+  match evs with
+  | [] => True
+  | ev :: rest =>
+      report_ok st last ev /\
+      match step cfg st ev with
+      | Err _ => True
+      | Ok (st', o) =>
+          match ev, o with
+          | Report t r _ _ _, _ => consecutive cfg st' (update t r last) rest
+          | _, OStart t _ => consecutive cfg st' (update t 0%Z last) rest
+          | _, OResume t _ _ _ from _ =>
+              consecutive cfg st' (update t 0%Z last) rest \/ consecutive cfg st' (update t from last) rest
+          | _, _ => consecutive cfg st' last rest
+          end
+      end
+  end.
+
+Definition G_inv (cfg : config) (st : state) (last : list (Z * Z)) : Prop :=
+  forall t ms rf, view cfg st t = Some (ms, rf) -> (lastv t last < ms)%Z.
+
+(* rung levels are positive *)
+Definition cfg_pos (cfg : config) : Prop := Forall (fun l => (1 <= l)%Z) (c_levels cfg) /\ (1 <= c_max_t cfg)%Z.
+
+Lemma is_level_pos cfg v : cfg_pos cfg -> is_level cfg v -> (1 <= v)%Z.
+Proof. intros [Hf Hm] [Hin| ->]; [|exact Hm]. rewrite Forall_forall in Hf. auto. Qed.
+
+Lemma G_update_other cfg st st' last t v :
+  (forall t', t' <> t -> view cfg st' t' = view cfg st t') ->
+  (forall ms rf, view cfg st' t = Some (ms, rf) -> (v < ms)%Z) ->
+  G_inv cfg st last -> G_inv cfg st' (update t v last).
+Proof.
+  intros Hother Hself HG t' ms rf Hv. destruct (Z.eq_dec t' t) as [->|Hne].
+  - rewrite lastv_update_eq. eauto.
+  - rewrite lastv_update_neq by exact Hne. rewrite Hother in Hv by exact Hne. eauto.
+Qed.
+
+Lemma G_same cfg st st' last :
+  (forall t', view cfg st' t' = view cfg st t' \/ view cfg st' t' = None) ->
+  G_inv cfg st last -> G_inv cfg st' last.
+Proof. intros H HG t ms rf Hv. destruct (H t) as [He|He]; rewrite He in Hv; [eauto|discriminate]. Qed.
+
+Lemma rung_level_pos cfg s rs j r : cfg_pos cfg -> rs_wf cfg (static_levels cfg s) rs ->
+  nth_error (rs_rungs rs) j = Some r -> (1 <= r_level r)%Z.
+Proof.
+  intros [Hf _] [Hl _] Hn. rewrite Forall_forall in Hf. apply Hf. eapply static_levels_in. rewrite <- Hl.
+  apply in_map. eapply nth_error_In; eauto.
+Qed.
+
+Definition G_post (cfg : config) (st' : state) (last : list (Z * Z)) (ev : event) (o : output) : Prop :=
+  match ev, o with
+  | Report t r _ _ _, _ => G_inv cfg st' (update t r last)
+  | _, OStart t _ => G_inv cfg st' (update t 0%Z last)
+  | _, OResume t _ _ _ from _ => G_inv cfg st' (update t 0%Z last) /\ G_inv cfg st' (update t from last)
+  | _, _ => G_inv cfg st' last
+  end.
+
+Lemma G_step cfg evs st os last ev st' o : cfg_wf cfg -> cfg_pos cfg -> run cfg evs = Ok (st, os) ->
+  G_inv cfg st last -> report_ok st last ev -> step cfg st ev = Ok (st', o) -> G_post cfg st' last ev o.
+Proof.
+  intros Hcfg Hpos Hrun HG Hok Hstep. destruct ev as [n br b got|t|t r m c eps|t|t|t]; simpl in Hstep.
+  - (* suggest *)
+    apply suggest_shape in Hstep as [rs [rs1 [p [Hn [Hs Hp]]]]].
+    assert (Hwf := reach_wf _ _ _ _ _ _ Hrun Hn).
+    assert (Hwf1 : rs_wf cfg (static_levels cfg (fst (sys_of cfg br))) rs1)
+      by (eapply rs_trans_wf; [eapply T_sched; eauto|exact Hwf]).
+    assert (Hrun1 : rs_running rs1 = rs_running rs) by (apply sched_shape in Hs; apply Hs).
+    set (sid := fst (sys_of cfg br)) in *.
+    assert (Hview_new : forall t x l t', t' <> t ->
+      view cfg (mkS (set_nth sid (set_running rs1 (update t x (rs_running rs1))) (st_sys st))
+                    (update t br (st_task st)) (update t (mkTI CONTINUE l) (st_active st)) (st_off st)) t'
+      = view cfg st t').
+    { intros t x l t' Hne. apply view_ext; simpl.
+      - rewrite lookup_update_neq by exact Hne. reflexivity.
+      - rewrite lookup_update_neq by exact Hne. reflexivity.
+      - intro s. apply (run_of_set_nth _ _ _ rs); [exact Hn|]. simpl.
+        rewrite lookup_update_neq by exact Hne. congruence. }
+    assert (Hview_self : forall t x l,
+      view cfg (mkS (set_nth sid (set_running rs1 (update t x (rs_running rs1))) (st_sys st))
+                    (update t br (st_task st)) (update t (mkTI CONTINUE l) (st_active st)) (st_off st)) t = Some x).
+    { intros t x l. unfold view. simpl. rewrite !lookup_update_eq. simpl. fold sid.
+      rewrite (nth_error_set_nth_eq _ _ _ _ Hn). simpl. apply lookup_update_eq. }
+    destruct p as [[[[j t] rf] ms]|].
+    + destruct Hp as [Hlt [ti [Hl [Hd [-> ->]]]]]. simpl.
+      apply sched_shape_id in Hs as [pos [r [e [Hnj [_ [_ [_ [Hlev _]]]]]]]].
+      assert (Hrf : (1 <= rf)%Z) by (rewrite <- Hlev; exact (rung_level_pos cfg _ rs j r Hpos Hwf Hnj)).
+      split; (apply (G_update_other cfg st); [intros t' Hne; apply Hview_new; exact Hne| |exact HG]);
+        intros ms' rf' Hv; rewrite Hview_self in Hv; inv Hv; lia.
+    + destruct Hp as [[_ [-> ->]]|[_ [Hl [-> ->]]]]; simpl.
+      * apply (G_same cfg st); [|exact HG]. intro t'. left. apply view_ext; simpl; auto.
+        intro s. apply (run_of_set_nth _ _ _ rs); [exact Hn|]. congruence.
+      * unfold rs_on_task_add_new. apply (G_update_other cfg st); [intros t' Hne; apply Hview_new; exact Hne| |exact HG].
+        intros ms' rf' Hv. rewrite Hview_self in Hv. inv Hv.
+        assert (1 <= first_milestone cfg rs1 (snd (sys_of cfg br)))%Z; [|lia].
+        apply (is_level_pos cfg); [exact Hpos|]. exact (first_milestone_level cfg _ rs1 _ Hwf1).
+  - inv Hstep. exact HG.
+  - (* report *)
+    destruct (on_trial_result cfg st t r m c eps) as [[st1 d]|] eqn:E; [|discriminate]. inv Hstep. simpl.
+    apply on_trial_result_shape in E as [_ [ti [Hl [[Hd [-> _]]|[Hd [br [rs [rs' [info [off' [lur' [Ht [Hn [Hout Hcases]]]]]]]]]]]]]].
+    { apply (G_update_other cfg st); [reflexivity| |exact HG]. intros ms rf Hv. apply view_some in Hv as [ti' [_ [_ [Hl' [Hd' _]]]]]. congruence. }
+    assert (HK := reach_run_inv _ _ _ _ _ _ Hrun Hn).
+    assert (Hr : r = (lastv t last + 1)%Z).
+    { apply Hok. unfold is_running. rewrite Hl, Hd. reflexivity. }
+    assert (Hrun' : rs_running rs' = rs_running rs).
+    { unfold report_outcome in Hout. destruct (r <? c_max_t cfg)%Z; [|inv Hout; reflexivity].
+      apply report_shape in Hout as [rs1 [Hp [_ [Hr' _]]]]. apply promo_report_shape in Hp as [Hr1 _]. congruence. }
+    assert (Hview : forall active off' t', option_map ti_dec (lookup t' active) = option_map ti_dec (lookup t' (st_active st)) ->
+              view cfg (mkS (set_nth (fst (sys_of cfg br)) rs' (st_sys st)) (st_task st) active off') t' = view cfg st t').
+    { intros active off'' t' Ha. apply view_ext; simpl; auto.
+      intro s. apply (run_of_set_nth _ _ _ rs); [exact Hn|]. congruence. }
+    assert (Hact1 : forall t', option_map ti_dec (lookup t' (update t (mkTI CONTINUE lur') (st_active st)))
+                             = option_map ti_dec (lookup t' (st_active st))).
+    { intro t'. destruct (Z.eq_dec t' t) as [->|Hne].
+      - rewrite lookup_update_eq, Hl. simpl. congruence.
+      - rewrite lookup_update_neq by exact Hne. reflexivity. }
+    assert (Hvt : view cfg st t = lookup t (rs_running rs)) by (eapply view_intro; eauto).
+    assert (Hbelow : ri_ignore info = true \/ ri_continues info = true ->
+                     forall ms rf, view cfg st t = Some (ms, rf) -> (r < ms)%Z).
+    { intros Hor ms rf Hv. rewrite Hvt in Hv. unfold report_outcome in Hout.
+      destruct (r <? c_max_t cfg)%Z.
+      - pose proof (report_result_cases cfg rs t r m (total_cost cfg st t c) eps ms rf Hv) as Hc.
+        rewrite Hout in Hc. destruct Hc as [Hle [_ [Hcont Hign]]]. destruct Hor as [Hi|Hc'].
+        + rewrite Hi in Hign. destruct rf as [f|]; [|discriminate]. apply HK in Hv. lia.
+        + rewrite Hc' in Hcont. destruct (r =? ms)%Z eqn:Eeq; [discriminate|]. lia.
+      - inv Hout. simpl in Hor. destruct Hor; discriminate. }
+    destruct Hcases as [[Hign [-> _]]|[[Hign [Hcont [-> _]]]|[Hign [Hcont [-> Hdd]]]]].
+    + apply (G_update_other cfg st); [| |exact HG].
+      * intros t' Hne. apply Hview. reflexivity.
+      * intros ms rf Hv. rewrite Hview in Hv by reflexivity. eapply Hbelow; eauto.
+    + apply (G_update_other cfg st); [| |exact HG].
+      * intros t' Hne. apply Hview. apply Hact1.
+      * intros ms rf Hv. rewrite Hview in Hv by apply Hact1. eapply Hbelow; eauto.
+    + apply (G_update_other cfg st); [| |exact HG].
+      * intros t' Hne. rewrite view_cleanup_other by exact Hne. apply Hview. apply Hact1.
+      * intros ms rf Hv. rewrite view_cleanup_self in Hv. discriminate.
+  - inv Hstep. simpl. apply (G_same cfg st); [|exact HG]. intro t'.
+    destruct (Z.eq_dec t' t) as [->|Hne]; [right; apply view_cleanup_self|left; apply view_cleanup_other; exact Hne].
+  - destruct (lookup t (st_active st)); [|discriminate]. inv Hstep. simpl. apply (G_same cfg st); [|exact HG]. intro t'.
+    destruct (Z.eq_dec t' t) as [->|Hne]; [right; apply view_cleanup_self|left; apply view_cleanup_other; exact Hne].
+  - inv Hstep. simpl. apply (G_same cfg st); [|exact HG]. intro t'.
+    destruct (Z.eq_dec t' t) as [->|Hne]; [right; apply view_cleanup_self|left; apply view_cleanup_other; exact Hne].
+Qed.
+
+Lemma suggest_not_skipped cfg st n br b got : suggest cfg st n br b got <> Err ESkipped.
+Proof.
+  unfold suggest. destruct (sys_of cfg br) as [sid skip].
+  destruct (nth_error (st_sys st) sid) as [rs|]; [|discriminate].
+  destruct (sched_ok cfg rs b) as [rs1 [p Hs]]. rewrite Hs.
+  destruct p as [[[[j t] rf] ms]|].
+  - unfold rs_on_task_add_resumed. destruct (rf <? ms)%Z; [|discriminate].
+    destruct (lookup t (st_active st)) as [ti|]; [|discriminate].
+    destruct (decision_eqb (ti_dec ti) CONTINUE); discriminate.
+  - destruct (negb got); [discriminate|]. destruct (lookup n (st_active st)); discriminate.
+Qed.
+
+Lemma report_skipped cfg rs t r m c eps : rs_on_task_report cfg rs t r m c eps = Err ESkipped ->
+  exists ms rf, lookup t (rs_running rs) = Some (ms, rf) /\ (ms < r)%Z.
+Proof.
+  intro H. destruct (lookup t (rs_running rs)) as [[ms rf]|] eqn:El.
+  - pose proof (report_result_cases cfg rs t r m c eps ms rf El) as Hc. rewrite H in Hc.
+    exists ms, rf. split; [reflexivity|]. apply Hc. reflexivity.
+  - exfalso. unfold rs_on_task_report, pasha_on_task_report, promo_on_task_report in H. rewrite El in H.
+    destruct (c_variant cfg); discriminate.
+Qed.
+
+Lemma on_trial_result_skipped cfg st t r m c eps : on_trial_result cfg st t r m c eps = Err ESkipped ->
+  is_running st t = true /\ exists ms rf, view cfg st t = Some (ms, rf) /\ (ms < r)%Z.
+Proof.
+  unfold on_trial_result, is_running, view. intro H.
+  destruct (r <? 1)%Z; [discriminate|].
+  destruct (lookup t (st_active st)) as [ti|]; [|discriminate].
+  destruct (decision_eqb (ti_dec ti) CONTINUE) eqn:Ed; simpl in H; [|discriminate].
+  split; [reflexivity|].
+  destruct (lookup t (st_task st)) as [br|]; [|discriminate].
+  destruct (nth_error (st_sys st) (fst (sys_of cfg br))) as [rs|]; [|discriminate].
+  match type of H with context [match ?X with Ok _ => _ | Err _ => _ end] =>
+    destruct X as [[rs' info]|e] eqn:Ex end.
+  - exfalso. repeat (break_inner_in H; try discriminate).
+  - inv H. destruct (r <? c_max_t cfg)%Z; [|discriminate]. eapply report_skipped; eauto.
+Qed.
+
+Lemma step_skipped cfg st ev : step cfg st ev = Err ESkipped ->
+  exists t r m c eps ms rf, ev = Report t r m c eps /\ is_running st t = true /\
+    view cfg st t = Some (ms, rf) /\ (ms < r)%Z.
+Proof.
+  destruct ev as [n br b got|t|t r m c eps|t|t|t]; simpl; intro H; try discriminate.
+  - exfalso. eapply suggest_not_skipped; eauto.
+  - destruct (on_trial_result cfg st t r m c eps) as [[st1 d]|e] eqn:E; [discriminate|]. inv H.
+    apply on_trial_result_skipped in E as [Hr [ms [rf [Hv Hlt]]]].
+    exists t, r, m, c, eps, ms, rf. auto.
+  - destruct (lookup t (st_active st)); discriminate.
+Qed.
+
+Lemma no_skip_from cfg : cfg_wf cfg -> cfg_pos cfg -> forall evs2 evs1 st os1 last,
+  run cfg evs1 = Ok (st, os1) -> G_inv cfg st last -> consecutive cfg st last evs2 ->
+  run_from cfg st evs2 <> Err ESkipped.
+Proof.
+  intros Hcfg Hpos. induction evs2 as [|ev rest IH]; intros evs1 st os1 last Hrun HG Hcons; simpl; [discriminate|].
+  simpl in Hcons. destruct Hcons as [Hok Hcons].
+  destruct (step cfg st ev) as [[st' o]|e] eqn:Es.
+  - assert (Hrun' : run cfg (evs1 ++ [ev]) = Ok (st', os1 ++ [o])).
+    { unfold run. eapply run_from_app; [exact Hrun|]. simpl. rewrite Es. reflexivity. }
+    pose proof (G_step _ _ _ _ _ _ _ _ Hcfg Hpos Hrun HG Hok Es) as Hpost.
+    assert (Hgo : forall last', G_inv cfg st' last' -> consecutive cfg st' last' rest -> run_from cfg st' rest <> Err ESkipped)
+      by (intros; eapply IH; eauto).
+    assert (Hrest : run_from cfg st' rest <> Err ESkipped).
+    { unfold G_post in Hpost.
+      destruct ev as [n br b got|t|t r m c eps|t|t|t];
+        try (destruct o; try (eapply Hgo; eauto; fail));
+        try (destruct Hpost as [H0 H1]; destruct Hcons as [Hc|Hc]; eapply Hgo; eauto; fail).
+      all: try (eapply Hgo; eauto; fail).
+      all: destruct Hpost as [H0 H1]; destruct Hcons as [Hc|Hc]; [exact (Hgo _ H0 Hc)|exact (Hgo _ H1 Hc)]. }
+    destruct (run_from cfg st' rest) as [[st'' os'']|e] eqn:Er; [discriminate|].
+    intro Hx. inv Hx. apply Hrest. reflexivity.
+  - intro Hx. inv Hx. apply step_skipped in Es as [t [r [m [c [eps [ms [rf [-> [Hr [Hv Hlt]]]]]]]]]].
+    simpl in Hok. specialize (Hok Hr). specialize (HG _ _ _ Hv). lia.
+Qed.
+
+(* the trace-level statement *)
+Lemma no_skipped_milestone cfg evs : cfg_wf cfg -> cfg_pos cfg ->
+  consecutive cfg (init cfg) [] evs -> run cfg evs <> Err ESkipped.
+Proof.
+  intros Hcfg Hpos Hcons. apply (no_skip_from cfg Hcfg Hpos evs [] (init cfg) [] []); auto.
+  intros t ms rf Hv. unfold view in Hv. simpl in Hv. discriminate.
+Qed.
+
+(* ---- Rung.quantile is numpy.quantile(method="linear") ------------------------------------------ *)
+(* textbook definition on an ascending list a, 0 <= q <= 1: h = (n-1) q, i = floor h, g = h - i,
+   a[i] + g (a[i+1] - a[i]) *)
+Definition np_quantile (a : list Q) (q : Q) : Q :=
+  let h := inject_Z (Z.of_nat (length a) - 1) * q in
+  let i := Qfloor h in
+  let g := h - inject_Z i in
+  nth (Z.to_nat i) a 0 + g * (nth (Z.to_nat i + 1) a 0 - nth (Z.to_nat i) a 0).
+
+(* the metric values of a rung in increasing order (rung data is kept best first) *)
+Definition asc_metrics (md : mode) (l : list entry) : list Q :=
+  match md with Min => map e_metric l | Max => rev (map e_metric l) end.
+
+Lemma floor_unique x z : inject_Z z <= x -> x < inject_Z (z + 1) -> Qfloor x = z.
+Proof.
+  intros Hlo Hhi.
+  assert (H1 : (z <= Qfloor x)%Z) by (rewrite <- (Qfloor_Z z); apply Qfloor_resp_le; exact Hlo).
+  assert (H2 : (Qfloor x < z + 1)%Z).
+  { rewrite Zlt_Qlt. eapply Qle_lt_trans; [apply Qfloor_le|exact Hhi]. }
+  lia.
+Qed.
+
+Lemma Qfloor_plus1 x : Qfloor (x + 1) = (Qfloor x + 1)%Z.
+Proof.
+  apply floor_unique.
+  - rewrite inject_Z_plus. change (inject_Z 1) with 1. pose proof (Qfloor_le x). lra.
+  - rewrite !inject_Z_plus. change (inject_Z 1) with 1. pose proof (Qlt_floor x) as H.
+    rewrite inject_Z_plus in H. change (inject_Z 1) with 1 in H. lra.
+Qed.
+
+Lemma metric_at_nth l k : metric_at l k = nth k (map e_metric l) 0.
+Proof.
+  unfold metric_at. revert k. induction l as [|x l IH]; intros [|k]; simpl; auto.
+Qed.
+
+Lemma quantile_is_numpy_linear md r :
+  (2 <= length (r_data r))%nat -> 0 < r_q r -> r_q r < 1 ->
+  exists c, quantile md r = Some c /\
+            c == np_quantile (asc_metrics md (r_data r)) (match md with Min => r_q r | Max => 1 - r_q r end).
+Proof.
+  intros Hlen Hq0 Hq1. unfold quantile.
+  assert (E : (length (r_data r) <? 2)%nat = false) by (apply Nat.ltb_ge; exact Hlen). rewrite E.
+  eexists. split; [reflexivity|].
+  set (n := length (r_data r)) in *.
+  set (q := match md with Min => r_q r | Max => 1 - r_q r end).
+  assert (Hq : 0 < q /\ q < 1) by (subst q; destruct md; split; lra).
+  set (h := inject_Z (Z.of_nat n - 1) * q).
+  assert (Hn1 : 1 <= inject_Z (Z.of_nat n - 1)).
+  { change 1 with (inject_Z 1). rewrite <- Zle_Qle. lia. }
+  assert (Hh0 : 0 <= h) by (subst h; nra).
+  assert (Hh1 : h < inject_Z (Z.of_nat n - 1)) by (subst h; nra).
+  assert (Hi0 : (0 <= Qfloor h)%Z).
+  { rewrite <- (Qfloor_Z 0). apply Qfloor_resp_le. exact Hh0. }
+  assert (Hi1 : (Qfloor h < Z.of_nat n - 1)%Z).
+  { rewrite Zlt_Qlt. eapply Qle_lt_trans; [apply Qfloor_le|exact Hh1]. }
+  assert (Hlen_asc : length (asc_metrics md (r_data r)) = n).
+  { unfold asc_metrics. destruct md; rewrite ?rev_length, map_length; reflexivity. }
+  unfold np_quantile. rewrite Hlen_asc. fold h.
+  assert (Hvirt : Qfloor (inject_Z (Z.of_nat n - 1) * match md with Min => r_q r | Max => 1 - r_q r end + 1)
+                  = (Qfloor h + 1)%Z) by (fold q; fold h; apply Qfloor_plus1).
+  destruct md; cbn [asc_metrics]; fold q in Hvirt |- *; fold h in Hvirt |- *; rewrite Hvirt; rewrite !metric_at_nth.
+  - replace (Z.to_nat (Qfloor h + 1 - 1)) with (Z.to_nat (Qfloor h)) by lia.
+    rewrite inject_Z_plus. change (inject_Z 1) with 1. ring.
+  - set (i := Qfloor h) in *.
+    assert (Hrev : forall k, (k < n)%nat -> nth k (rev (map e_metric (r_data r))) 0 = nth (n - S k) (map e_metric (r_data r)) 0).
+    { intros k Hk. rewrite rev_nth by (rewrite map_length; exact Hk). rewrite map_length. reflexivity. }
+    rewrite (Hrev (Z.to_nat i)) by lia. rewrite (Hrev (Z.to_nat i + 1)%nat) by lia.
+    replace (Z.to_nat (Z.of_nat n - (i + 1) - 1)) with (n - S (Z.to_nat i + 1))%nat by lia.
+    replace (n - S (Z.to_nat i + 1) + 1)%nat with (n - S (Z.to_nat i))%nat by lia.
+    rewrite inject_Z_plus. change (inject_Z 1) with 1. ring.
+Qed.
+
+(* and the list handed to the textbook formula is indeed ascending when the rung is sorted best first *)
+Lemma ss_rev_flip {A} (R : A -> A -> Prop) : forall l, StronglySorted R l -> StronglySorted (fun x y => R y x) (rev l).
+Proof.
+  induction 1; simpl; [constructor|]. apply ss_snoc; [assumption|]. apply Forall_rev. exact H0.
+Qed.
+
+Lemma asc_metrics_sorted md l : sorted md l -> StronglySorted Qle (asc_metrics md l).
+Proof.
+  intro Hs.
+  assert (Hmap : forall R : Q -> Q -> Prop, (forall x y, nb md x y -> R (e_metric x) (e_metric y)) ->
+                 StronglySorted R (map e_metric l)).
+  { intros R HR. induction Hs; simpl; constructor; auto.
+    rewrite Forall_forall in *. intros y Hy. apply in_map_iff in Hy as [e [<- He]]. auto. }
+  destruct md; simpl.
+  - apply Hmap. intros x y H. unfold nb in H. simpl in H. apply Qltb_false in H. exact H.
+  - apply (ss_rev_flip (fun a b => b <= a)). apply Hmap. intros x y H. unfold nb in H. simpl in H.
+    apply Qltb_false in H. exact H.
+Qed.
